@@ -46,8 +46,13 @@ pub fn oracle(p: &Program) -> Vec<Violation> {
     let mut out: Vec<Violation> = Vec::new();
     let name = p.kind.name();
     let mut prev: Option<(usize, usize, u32)> = None; // step, len, declared
-    drive(p, &flat, &mut |o: &Obs| {
+    let mut tr = Tracker::new(p, &flat);
+    let res = drive(p, &flat, &mut |o: &Obs| {
         let after = if o.step == 0 { "ctor".to_string() } else { flat[o.step - 1].label().to_string() };
+        // a valid operation that panics (in this build profile) delivers no table at all
+        if tr.observe(&flat, o.step, o.refused) == Some("refused-valid") && !out.iter().any(|v| v.kind == "refused-valid") {
+            out.push(Violation::new("C02", &format!("{}/{}", name, after), "refused-valid", String::new(), format!("step={} op={}", o.step, trunc(format!("{:?}", flat[o.step - 1]), 200))));
+        }
         let (off, what) = if p.kind == Kind::Rsdp { (20, "rsdp-length") } else { (4, "length") };
         if o.image.len() < off + 4 {
             out.push(Violation::new("C02", name, "length-field", format!("image-too-short after:{}", after), format!("len={}", o.image.len())));
@@ -86,6 +91,9 @@ pub fn oracle(p: &Program) -> Vec<Violation> {
         }
         prev = Some((o.step, emitted, declared));
     });
+    if res.ctor_refused && !ctor_refused(p) {
+        out.push(Violation::new("C02", name, "refused-valid", "ctor".into(), format!("{:?}", p.ctor)));
+    }
     out
 }
 
